@@ -562,6 +562,14 @@ func lowZeroBits(t *smt.Term) int {
 		if t.Args[0].Op == "int" {
 			return lowZeroBits(t.Args[0]) + lowZeroBits(t.Args[1])
 		}
+	case "+":
+		m := 64
+		for _, a := range t.Args {
+			if z := lowZeroBits(a); z < m {
+				m = z
+			}
+		}
+		return m
 	case "ite":
 		a, b := lowZeroBits(t.Args[1]), lowZeroBits(t.Args[2])
 		if a < b {
